@@ -65,18 +65,35 @@ def occurrences(pattern, files=None):
     return res
 
 
-def only_in(name, pattern, allowed, files=None, min_hits=1):
-    """Obligation: every occurrence of `pattern` lies in one of the functions `allowed` (set of fn names,
-    or 'file.rs::fn')."""
+def _callers_of(fn_name, files=None):
+    """enclosing fns of every textual call site `fn_name(` / `.fn_name(` (definition sites excluded)."""
+    res = []
+    for (f, ln, fn, txt) in occurrences(r'(?<!fn )\b%s\s*\(' % re.escape(fn_name), files):
+        if re.search(r'\bfn\s+%s\b' % re.escape(fn_name), txt):
+            continue
+        res.append(fn)
+    return res
+
+
+def only_in(name, pattern, allowed, files=None, min_hits=1, strict=False):
+    """Obligation: every occurrence of `pattern` lies in one of the functions `allowed`, or in a helper function
+    whose every (textual) call site lies in an allowed function (one level of extraction is tolerated, so that
+    moving the statement into a helper called from the same place is not an alarm; a function that is never
+    called by name - a Drop impl, a trait hook - is not tolerated)."""
     occ = occurrences(pattern, files)
     bad = []
     for (f, ln, fn, txt) in occ:
         if fn in allowed or ('%s::%s' % (os.path.basename(f), fn)) in allowed:
             continue
+        if fn is not None and fn not in ('drop', 'new', 'default', 'clone', 'fmt'):
+            callers = _callers_of(fn)
+            if callers and all(c in allowed for c in callers):
+                continue
         bad.append('%s:%d in fn %s: %s' % (f, ln, fn, txt))
-    ok = not bad and len(occ) >= min_hits
-    detail = bad if bad else (['pattern no longer occurs at all (expected >= %d): %s' % (min_hits, pattern)] if len(occ) < min_hits else [])
-    return dict(name=name, kind='frame/only-in', ok=ok, hits=len(occ), detail=detail,
+    if len(occ) < min_hits and not bad:
+        return dict(name=name, kind='frame/only-in', ok=(False if strict else None), hits=len(occ), sample=[],
+                    detail=['anchor lost: pattern occurs %d time(s), expected >= %d: %s' % (len(occ), min_hits, pattern)])
+    return dict(name=name, kind='frame/only-in', ok=not bad, hits=len(occ), detail=bad,
                 sample=['%s:%d %s' % (f, ln, fn) for (f, ln, fn, t) in occ[:6]])
 
 
@@ -86,7 +103,7 @@ def absent(name, pattern, files=None):
                 detail=['%s:%d in fn %s: %s' % o for o in occ], sample=[])
 
 
-def in_order(name, file, fn, patterns, impl=None):
+def in_order(name, file, fn, patterns, impl=None, strict=False):
     """Obligation: inside fn, the patterns occur, each first occurrence after the previous one's."""
     text = read_repo(file)
     try:
@@ -95,6 +112,12 @@ def in_order(name, file, fn, patterns, impl=None):
         return dict(name=name, kind='frame/order', ok=None, hits=0, detail=['anchor lost: %s' % e], sample=[])
     body = text[loc['body_open']:loc['body_close'] + 1]
     m = mask(body)
+    # every pattern must still be there (else the anchor is lost: undecided, not an alarm) ...
+    missing = [p for p in patterns if not re.search(p, m)]
+    if missing:
+        return dict(name=name, kind='frame/order', ok=(False if strict else None), hits=0,
+                    detail=['anchor lost in %s::%s: `%s` no longer occurs' % (file, fn, missing[0])], sample=[])
+    # ... and in this order (else the obligation is violated)
     pos = 0
     found = []
     for p in patterns:
